@@ -251,10 +251,11 @@ def _run_task(task):
 
 def run_chunks(p, jobs, parallel=None):
     """jobs: list of (fn, part_name, n_chunks, n_per_chunk); fn(sub_probe, n) must be a module-level
-    function.  Chunks run in a process pool (<= 16 workers) in the thorough tier, inline otherwise."""
+    function.  Chunks run in a process pool (<= 16 workers; VERIF_PROBE_SERIAL=1 runs them inline); the merged
+    result is the same either way."""
     tasks = [(fn, p.pid, part, i, n) for fn, part, chunks, n in jobs for i in range(chunks)]
     if parallel is None:
-        parallel = p.tier == 'thorough'
+        parallel = os.environ.get('VERIF_PROBE_SERIAL') != '1'
     if parallel and len(tasks) > 1:
         workers = max(1, min(16, os.cpu_count() or 1, len(tasks)))
         ctx = multiprocessing.get_context('fork')
